@@ -290,13 +290,39 @@ def load_known(pid):
 # orchestration
 # ----------------------------------------------------------------------------
 
+class CaseTimeout(Exception):
+    pass
+
+
+def _alarm(signum, frame):
+    raise CaseTimeout()
+
+
 def _impl_one(args):
     plugin_name, case = args
     plugin = importlib.import_module(plugin_name)
+    import signal
+    limit = int(getattr(plugin, 'CASE_TIMEOUT', 120))
+    old = None
+    try:
+        # a code change may make an operation loop forever: bound every single case (SIGALRM, main thread of the worker)
+        old = signal.signal(signal.SIGALRM, _alarm)
+        signal.alarm(limit)
+    except (ValueError, AttributeError):
+        old = None
     try:
         return plugin.impl(case)
+    except CaseTimeout:
+        return {'error': 'Timeout', 'detail': 'the implementation did not return within %d s on this case' % limit}
     except Exception as e:  # harness-level failure inside impl: keep it visible
         return {'error': type(e).__name__, 'detail': ''.join(traceback.format_exception_only(type(e), e)).strip()[:300]}
+    finally:
+        try:
+            signal.alarm(0)
+            if old is not None:
+                signal.signal(signal.SIGALRM, old)
+        except (ValueError, AttributeError):
+            pass
 
 
 def run_impl(plugin, cases):
